@@ -282,3 +282,56 @@ func c08PoolReset(c *Ctx, r *Report, rule string) {
 		}
 	}
 }
+
+// c08SharedReplacer: a caddy.Replacer is a mutable object (Set stores a value, Map and caddyhttp.PrepareRequest append a
+// provider bound to one request). The replacer of a connection lives in the connection's context; a replacer kept in
+// the shared module instance and handed to one of these per connection accumulates the state of every connection that
+// came by - later connections are matched with an earlier connection's request - and is written without a lock.
+func c08SharedReplacer(c *Ctx, r *Report, rule string) {
+	r.rule(rule, "no per-connection code hands a *caddy.Replacer held by the shared module instance (or a package variable) to an operation that modifies it (Replacer.Set, Replacer.Map, caddyhttp.PrepareRequest): the replacer it modifies is the connection's own or a fresh one", 3)
+	mutating := func(ci ssa.CallInstruction) int { // index of the replacer argument, -1 if the call does not modify one
+		id := calleeID(ci)
+		switch {
+		case strings.HasSuffix(id, "caddy/v2.Replacer).Set"), strings.HasSuffix(id, "caddy/v2.Replacer).Map"), strings.HasSuffix(id, "caddy/v2.Replacer).Delete"):
+			return 0
+		case strings.HasSuffix(id, "caddyhttp.PrepareRequest"):
+			return 1
+		}
+		return -1
+	}
+	n := 0
+	for _, fn := range sortedFuncs(c.perConnReach()) {
+		k := 0
+		for _, ci := range callsIn(fn) {
+			idx := mutating(ci)
+			if idx < 0 || idx >= len(ci.Common().Args) {
+				continue
+			}
+			n++
+			k++
+			shared := ""
+			for _, o := range origins(ci.Common().Args[idx], sliceOpts{}) {
+				if o.Kind != "field" {
+					if o.Kind == "global" {
+						shared = "package variable " + o.Desc
+					}
+					continue
+				}
+				ld, ok := o.V.(*ssa.UnOp)
+				if !ok {
+					continue
+				}
+				for _, root := range addrRoots(ld.X) {
+					if why := sharedInstance(c, root); why != "" {
+						shared = o.Desc + " of the " + why
+					}
+				}
+			}
+			r.check(shared == "", rule, fname(fn), fmt.Sprintf("%s#%d", shortCallee(calleeID(ci)), k), c.ipos(ci), "the replacer modified here is the connection's own or a fresh one",
+				"the replacer modified here is "+shared+": every connection through this instance adds to it - later connections are matched with placeholders bound to an earlier connection's request, and the additions race")
+		}
+	}
+	if n == 0 {
+		r.bad(rule, "module", "replacer modifications", "-", "no modification of a replacer found in per-connection code")
+	}
+}
